@@ -13,7 +13,7 @@ SPEC = tlc.SPEC_DIR
 
 
 def run_mc(defs, workdir, own, max_pause=0, max_cancel=0, max_steps=14, known=(), emit=True,
-           workers=16, timeout=1200, simulate=None, seed=None, tag="mc", bound_check=False):
+           workers=16, timeout=1200, simulate=None, seed=None, tag="mc", bound_check=False, max_rerun=0):
     """-> dict(states, distinct, wall, rc, leaves=[{def, sched, digest}], violated, out)"""
     dpath = os.path.join(workdir, tag + "_defs.json")
     with open(dpath, "w") as f:
@@ -21,9 +21,9 @@ def run_mc(defs, workdir, own, max_pause=0, max_cancel=0, max_steps=14, known=()
     cfg = os.path.join(SPEC, "MC_%s_%d.cfg" % (tag, os.getpid()))
     q = lambda xs: "{" + ", ".join('"%s"' % x for x in xs) + "}"
     with open(cfg, "w") as f:
-        f.write("SPECIFICATION Spec\nCONSTANTS\n  MaxPause = %d\n  MaxCancel = %d\n  MaxSteps = %d\n"
+        f.write("SPECIFICATION Spec\nCONSTANTS\n  MaxPause = %d\n  MaxCancel = %d\n  MaxSteps = %d\n  MaxRerun = %d\n"
                 "  Own = %s\n  KnownSigs = %s\nINVARIANT NoViolation\n%sVIEW View\nCHECK_DEADLOCK FALSE\n"
-                % (max_pause, max_cancel, max_steps, q(own), q(known),
+                % (max_pause, max_cancel, max_steps, max_rerun, q(own), q(known),
                    ("INVARIANT EmitLeaves\n" if emit else "") + ("INVARIANT BoundNotHit\n" if bound_check else "")))
     try:
         res = tlc.run("MC", cfg=os.path.basename(cfg), env={"DEFS_FILE": dpath}, workers=workers,
@@ -76,6 +76,7 @@ def _replay_job(job):
         n0 = tree.add_steps(0, steps, ["boot"])
         trie = {"real": root, "node": n0, "kids": {}}
         mismatches = []
+        fins = {}
         for lf in leaves:
             cur = trie
             for ch in lf["sched"]:
@@ -87,12 +88,13 @@ def _replay_job(job):
                     nn = tree.add_steps(cur["node"], st, list(ch))
                     cur["kids"][key] = {"real": c, "node": nn, "kids": {}}
                 cur = cur["kids"][key]
+            fins[cur["node"]] = cur["real"].fin()
             got = _norm(_digest(cur["real"]))
             exp = _norm(lf["digest"])
             if lf["digest"] is not None and got != exp:
                 mismatches.append({"def": d["name"], "sched": lf["sched"], "expected": exp, "got": got})
         return {"ok": True, "tree": tree.to_json(0), "sched": [None] + [n.get("ch") for n in tree.nodes[1:]],
-                "truncated": False, "leaves": len(leaves), "d": d, "env": {"mc_replay": True}, "lang": lang,
+                "truncated": False, "leaves": len(leaves), "fins": fins, "d": d, "env": {"mc_replay": True}, "lang": lang,
                 "tok": "task", "mismatches": mismatches}
     except Exception as e:
         import traceback
